@@ -2140,6 +2140,39 @@ mut("combo-twin-C17-7-relaxed-next", "break", ["C17"], "on top of the twin: fron
     [TW17, ed(QF, "let next = unsafe { head.deref() }.next.load(Acquire, guard);", "let next = unsafe { head.deref() }.next.load(Relaxed, guard);")],
     ["ORD-QUEUE"])
 
+# ---- third mutation sweep (sibling names swapped, adjacent statements swapped, orderings weakened): the holes it found
+OL = "src/ebr_impl/sync/once_lock.rs"
+mut("ms3-cas-expected-is-desired-weak", "break", ["C09"], "AtomicWeak::compare_exchange compares the cell with desired's word (mutation sweep 3)",
+    [ed(W, """    ) -> Result<Weak<T>, CompareExchangeError<Weak<T>, WeakSnapshot<'g, T>>> {
+        let mut expected_raw = expected.ptr;""", """    ) -> Result<Weak<T>, CompareExchangeError<Weak<T>, WeakSnapshot<'g, T>>> {
+        let mut expected_raw = desired.ptr;""", 2)], ["CAS-EPOCH-BLIND"])
+mut("ms3-cas-expected-is-desired-strong", "break", ["C08"], "AtomicRc::compare_exchange(_weak) compares the cell with desired's word (mutation sweep 3)",
+    [ed(S, """        let mut expected_raw = expected.ptr;
+        let desired_raw = desired.ptr.with_timestamp();""", """        let mut expected_raw = desired.ptr;
+        let desired_raw = desired.ptr.with_timestamp();""", 2)], ["CAS-EPOCH-BLIND"])
+mut("ms3-weak-ptr-eq-self", "break", ["C09", "C11"], "Weak::ptr_eq / WeakSnapshot::ptr_eq compare a word with itself (mutation sweep 3)",
+    [ed(W, "        self.ptr.ptr_eq(other.ptr)", "        other.ptr.ptr_eq(other.ptr)", 2)], ["BIT-DELEGATION"])
+mut("ms3-depthcap-try-dealloc", "break", ["C04", "C06", "C07", "C03"], "at the depth cap the cascade defers try_dealloc instead of try_destruct (mutation sweep 3)",
+    [ed(U, """        // Prevent a potential stack overflow.
+        guard.defer_with_inner(rc, |rc| RcInner::try_destruct(rc));""", """        // Prevent a potential stack overflow.
+        guard.defer_with_inner(rc, |rc| RcInner::try_dealloc(rc));""")], ["CW-DESTRUCT-ORDER"])
+mut("ms3-acquire-handle-guard-count", "break", ["C16", "C20"], "acquire_handle writes guard_count + 1 into handle_count (mutation sweep 3)",
+    [ed(I, """    pub(crate) fn acquire_handle(&self) {
+        let handle_count = self.handle_count.get();""", """    pub(crate) fn acquire_handle(&self) {
+        let handle_count = self.guard_count.get();""")], ["EBR-CELL-RMW"])
+mut("ms3-queue-tail-cas-relaxed", "break", ["C17"], "the CAS that swings the tail to the new node is Relaxed (mutation sweep 3)",
+    [ed(QF, ".compare_exchange(onto, new, Release, Relaxed, guard);", ".compare_exchange(onto, new, Relaxed, Relaxed, guard);")], ["ORD-QUEUE"])
+mut("ms3-queue-head-cas-relaxed", "break", ["C17"], "the head CAS of the conditional pop is Relaxed (mutation sweep 3)",
+    [ed(QF, ".compare_exchange(head, next, Release, Relaxed, guard)", ".compare_exchange(head, next, Relaxed, Relaxed, guard)", 2)], ["ORD-QUEUE"])
+mut("ms3-queue-tail-load-relaxed", "break", ["C17"], "push loads the tail it dereferences with Relaxed (mutation sweep 3)",
+    [ed(QF, "let tail = self.tail.load(Acquire, guard);", "let tail = self.tail.load(Relaxed, guard);")], ["ORD-QUEUE"])
+mut("ms3-oncelock-flag-store-relaxed", "break", ["C18", "C20"], "the default collector's cell publishes its flag with Relaxed (mutation sweep 3)",
+    [ed(OL, "is_initialized.store(true, Ordering::Release);", "is_initialized.store(true, Ordering::Relaxed);")], ["EBR-DEFAULT-COLLECTOR"])
+mut("ms3-oncelock-flag-load-relaxed", "break", ["C18", "C20"], "the fast path reads the cell's flag with Relaxed (mutation sweep 3)",
+    [ed(OL, "self.is_initialized.load(Ordering::Acquire)", "self.is_initialized.load(Ordering::Relaxed)")], ["EBR-DEFAULT-COLLECTOR"])
+mut("ok-ms3-queue-pop-tail-load-relaxed", "benign", [], "the tail loaded after the head CAS is only compared, never dereferenced: Relaxed is what the code has",
+    [ed(QF, "let tail = self.tail.load(Relaxed, guard);", "let tail = self.tail.load(Acquire, guard);", 2)])
+
 # behaviour-preserving refactorings written by sub-agents told to keep every interleaving's behaviour (selftest/refactors/)
 for f in sorted(glob.glob(os.path.join(HERE, "refactors", "*.diff"))):
     name = os.path.basename(f)[:-5]
